@@ -23,6 +23,7 @@ import (
 	"os"
 	"os/exec"
 	"path/filepath"
+	"regexp"
 	"runtime"
 	"sort"
 	"strconv"
@@ -307,6 +308,7 @@ func makeInstrumentedCopy(dir, copyDir string) error {
 type batchOutcome struct {
 	results []*workerResult
 	hung    []int // run indices named by tripped watchdogs
+	fatal   []int // run indices in progress when a worker died of an unrecoverable runtime error with go-cose frames on the stack
 	crashed []string
 }
 
@@ -356,6 +358,13 @@ func fanOut(bin, dir, prop, tier string, seed uint64, total, nproc int, knownPat
 					cur = strings.TrimSpace(string(pb))
 				}
 				msg := stderr.String()
+				if n, aerr := strconv.Atoi(cur); aerr == nil && strings.Contains(msg, "fatal error:") && strings.Contains(msg, "github.com/veraison/go-cose.") {
+					// stack exhaustion, concurrent map access, ...: not recoverable
+					// by the worker; attributed to the run in progress and
+					// confirmed in isolation below
+					bo.fatal = append(bo.fatal, n)
+					return
+				}
 				if len(msg) > 4000 {
 					msg = msg[:2000] + "\n...\n" + msg[len(msg)-2000:]
 				}
@@ -558,6 +567,23 @@ func check(id, tier string) int {
 
 	exit := 0
 	var violationPath string
+	if len(bo.fatal) > 0 {
+		sort.Ints(bo.fatal)
+		v := fatalViolation(bin, dir, id, tier, seed, bo.fatal[0], knownPath, workerEnv)
+		if v == nil {
+			os.RemoveAll(dir)
+			fmt.Fprintf(os.Stderr, "verif: a worker died of a runtime fatal error in run %d but the run alone does not (no verdict)\n", bo.fatal[0])
+			os.Exit(2)
+		}
+		if id != "C06" {
+			os.RemoveAll(dir)
+			fmt.Fprintf(os.Stderr, "verif: run %d ends the process with a runtime fatal error inside go-cose (%s); that is property C06's business, no verdict for %s\n", bo.fatal[0], v.Signature, id)
+			os.Exit(2)
+		}
+		if agg.violation == nil || v.Run < agg.violation.Run {
+			agg.violation = v
+		}
+	}
 	if len(bo.hung) > 0 {
 		sort.Ints(bo.hung)
 		v := hangViolation(bin, dir, id, tier, seed, bo.hung[0], knownPath)
@@ -566,7 +592,9 @@ func check(id, tier string) int {
 			fmt.Fprintf(os.Stderr, "verif: watchdog tripped in run %d but the hang did not reproduce in isolation (no verdict)\n", bo.hung[0])
 			os.Exit(2)
 		}
-		if id != "C06" {
+		if id != "C06" && id != "C20" {
+			// (C20: a signing call that never returns after a seam failure has
+			// not "returned that error")
 			os.RemoveAll(dir)
 			fmt.Fprintf(os.Stderr, "verif: run %d hangs; hangs are property C06's business, no verdict for %s\n", bo.hung[0], id)
 			os.Exit(2)
@@ -704,6 +732,36 @@ func determinism(bin, dir, id, tier string, seed uint64, knownPath string, n int
 	}
 	res.ok = true
 	return res
+}
+
+// fatalViolation re-executes one run alone; if the process dies again of a Go
+// runtime fatal error with go-cose frames on the stack, that is the violation.
+func fatalViolation(bin, dir, id, tier string, seed uint64, run int, knownPath string, env []string) *replayFile {
+	out := filepath.Join(dir, "fatal-check.json")
+	cmd := exec.Command(bin, "run", "-prop", id, "-tier", tier, "-seed", strconv.FormatUint(seed, 10),
+		"-start", strconv.Itoa(run), "-count", "1", "-known", knownPath, "-out", out)
+	cmd.Env = append(os.Environ(), env...)
+	var stderr strings.Builder
+	cmd.Stderr = &stderr
+	cmd.Stdout = &stderr
+	if err := cmd.Run(); err == nil {
+		return nil
+	}
+	msg := stderr.String()
+	i := strings.Index(msg, "fatal error:")
+	if i < 0 || !strings.Contains(msg, "github.com/veraison/go-cose.") {
+		return nil
+	}
+	kind := strings.TrimSpace(strings.SplitN(msg[i+len("fatal error:"):], "\n", 2)[0])
+	fn := "?"
+	if m := regexp.MustCompile(`github\.com/veraison/go-cose\.([A-Za-z0-9_.()*]+)\(`).FindStringSubmatch(msg[i:]); m != nil {
+		fn = m[1]
+	}
+	if len(msg) > 1500 {
+		msg = msg[:1500]
+	}
+	return &replayFile{Property: id, Seed: seed, Run: run, Tier: tier, Signature: id + "/fatal/" + strings.ReplaceAll(kind, " ", "-") + "/" + fn,
+		Detail: fmt.Sprintf("run %d ends the whole process with the unrecoverable runtime error %q inside go-cose (%s) when executed alone; replay with: cosesim run -prop %s -seed %d -start %d -count 1\n%s", run, kind, fn, id, seed, run, msg)}
 }
 
 func hangViolation(bin, dir, id, tier string, seed uint64, run int, knownPath string) *replayFile {
